@@ -88,7 +88,61 @@ func C02(c *run.Ctx) int {
 		}
 		return id, o
 	})
+	// whole-composite traffic with workgroup memory (the backend raises the module version for OpCopyLogical when an
+	// array / struct crosses between a laid-out and a layout-free address space; the entry-point interface rules of
+	// the raised version then apply): every source kind x destination type, no other composite access in the module
+	var tsrcs []string
+	for _, ty := range []struct{ decl, ty, cons string }{
+		{"", "array<u32, 4>", "array<u32, 4>(1u, 2u, 3u, 4u)"},
+		{"struct S { a: u32, b: vec2<f32>, c: array<i32, 2>, }\n", "S", "S(1u, vec2<f32>(2.0, 3.0), array<i32, 2>(4, 5))"},
+		{"struct I { x: f32, y: u32, }\n", "array<I, 2>", "array<I, 2>(I(1.0, 2u), I(3.0, 4u))"},
+	} {
+		for _, from := range []string{"storage", "storage-rw", "uniform", "private", "function", "let", "constructor", "workgroup-to-storage", "workgroup-to-function"} {
+			pre := ty.decl + "var<workgroup> w: " + ty.ty + ";\n@group(0) @binding(0) var<storage, read_write> o: array<u32, 8>;\n"
+			body := ""
+			uty := ty.ty
+			if from == "uniform" && ty.ty != "S" {
+				continue // array strides below 16 are not host-shareable in uniform space
+			}
+			switch from {
+			case "storage":
+				pre += "@group(0) @binding(1) var<storage> src: " + ty.ty + ";\n"
+				body = "w = src;"
+			case "storage-rw":
+				pre += "@group(0) @binding(1) var<storage, read_write> src: " + ty.ty + ";\n"
+				body = "w = src;"
+			case "uniform":
+				pre = "struct S { a: u32, b: vec2<f32>, c: vec4<i32>, }\nvar<workgroup> w: S;\n@group(0) @binding(0) var<storage, read_write> o: array<u32, 8>;\n@group(0) @binding(1) var<uniform> src: S;\n"
+				body = "w = src;"
+			case "private":
+				pre += "var<private> src: " + ty.ty + ";\n"
+				body = "w = src;"
+			case "function":
+				body = "var src = " + ty.cons + "; w = src;"
+			case "let":
+				body = "let src = " + ty.cons + "; w = src;"
+			case "constructor":
+				body = "w = " + ty.cons + ";"
+			case "workgroup-to-storage":
+				pre += "@group(0) @binding(1) var<storage, read_write> dst: " + ty.ty + ";\n"
+				body = "dst = w;"
+			case "workgroup-to-function":
+				body = "var dst = w; o[1] = 2u;"
+				_ = uty
+			}
+			tsrcs = append(tsrcs, pre+"@compute @workgroup_size(1) fn main() { "+body+" workgroupBarrier(); o[0] = 1u; }\n")
+		}
+	}
+	c.Each(len(tsrcs), func(i int) (string, run.Outcome) {
+		id := fmt.Sprintf("workgroup-composite-%d", i)
+		o := c02Eval(tsrcs[i], opts, map[string]int{"template:workgroup-composite": 1, fmt.Sprintf("template:workgroup-composite-%d", i): 1}, false)
+		if o.V == run.Violated {
+			o.Reason = id + ": " + o.Reason
+		}
+		return id, o
+	})
 	return c.Finish("generated compute modules plus naga's 172-shader corpus, each compiled to SPIR-V under every option set (versions 1.0-1.6 x debug x loop bounding x ForcePointSize x AdjustCoordinateSpace x bounds-check policies) and checked by an independent structural validator (73 rule ids: header, layout, ids/dominance, types, per-opcode typing, structured control flow, Vulkan decorations, entry-point interfaces, capabilities/extensions); "+
+		"plus templates moving whole arrays / structs between workgroup memory and every other source (storage, uniform, private, function, let, constructor) under every option set; "+
 		"counters rule:<id> give the number of non-vacuous evaluations of each rule; distinct = distinct (feature set | corpus shader); non-trivial = at least one module validated",
 		[]string{"the validator implements universal and Vulkan-environment rules as listed in internal/spvval/doc.go; it was calibrated to be silent on the corpus (upstream: 172/172 spirv-val clean) apart from listed known findings"})
 }
